@@ -507,6 +507,9 @@ class Parser:
         self, parts: list[ast.JoinedStr | TokenInfo]
     ) -> ast.Constant | ast.JoinedStr | ast.Call:
         """Concatenate multiple tokens and ast.JoinedStr"""
+        if len({self._is_bytes_token(p) for p in parts}) > 1:
+            self.raise_syntax_error_known_range("cannot mix bytes and nonbytes literals", parts[0], parts[-1])
+
         # Get proper start and stop
         start = end = None
         if isinstance(parts[0], ast.JoinedStr):
@@ -568,6 +571,14 @@ class Parser:
         if path_tok:
             self._path_token = path_tok
         return ast.JoinedStr(values=b, **locs)
+
+    @staticmethod
+    def _is_bytes_token(part: ast.JoinedStr | TokenInfo) -> bool:
+        if not isinstance(part, TokenInfo):
+            return False
+        text = part.string
+        idx = min(i for i in (text.find("'"), text.find('"')) if i >= 0)
+        return "b" in text[:idx].lower()
 
     @staticmethod
     def _strip_path_prefix(token: TokenInfo | ast.expr) -> TokenInfo | None:
